@@ -114,20 +114,25 @@ fn generate(fam: &str, seed: u64, tier: &str, emit: Emit) {
         let lty = ty_of(lt);
         for rt in RHS {
             let rty = ty_of(rt);
-            for rep in 0..(reps + 4) {
-                // the last four repetitions use carry / borrow patterns: zeros, ones, one bit on a word boundary, low word only
+            for rep in 0..(reps + 7) {
+                // the last repetitions use carry / borrow patterns: zeros, ones, one bit on a word boundary, low word only,
+                // and the maxima of the native widths (2^64-1, 2^128-1, 2^32-1) zero-extended
                 let l = if rep < reps { gen_vec(rng, &lty, 200) } else {
                     let len = lty.cap().unwrap_or(64 * (2 + rng.below(4))).min(320);
                     let bits: Vec<bool> = match rep - reps {
                         0 => vec![false; len],
                         1 => vec![true; len],
                         2 => { let k = (64 * rng.below(len / 64 + 1)).min(len - 1); (0..len).map(|i| i == k).collect() }
-                        _ => (0..len).map(|i| i < 8 && rng.chance(1, 2)).collect(),
+                        3 => (0..len).map(|i| i < 8 && rng.chance(1, 2)).collect(),
+                        4 => (0..len).map(|i| i < 128).collect(),
+                        5 => (0..len).map(|i| i < 64).collect(),
+                        _ => (0..len).map(|i| i < 32).collect(),
                     };
                     vec_token(&lty, &bits, rng.below(2), rng.chance(1, 3))
                 };
-                let rl = gen_len(rng, &rty, 200).min(200);
+                let rl = if rep >= reps + 4 { (129 + rng.below(60)).min(rty.cap().unwrap_or(200)) } else { gen_len(rng, &rty, 200).min(200) };
                 let mut rb = gen_bits(rng, rl);
+                if rep >= reps + 4 && rl > 0 { rb[rl - 1] = true; }
                 if rl > 0 && rb.iter().all(|x| !x) && rng.chance(3, 4) {
                     rb[rng.below(rl)] = true;
                 }
